@@ -20,6 +20,34 @@ def rc_text(what):
             + what)
 
 
+SIM_NOTE = ("Trusted: TLC, CommunityModules (Json, IOUtils); the deterministic simulation (harness/src/sim.rs: single-threaded "
+            "executor, virtual clock, in-memory network implementing the public DdsRuntime/TransportParticipantFactory traits, "
+            "no source changes); datagrams are decoded for the log by the crate's own RtpsMessageRead; one worker iteration is "
+            "atomic. Bounds: 1 writer, 1-3 readers, <= 8 samples per scenario, fault schedules: all single (quick) / pairs "
+            "(thorough) of targeted drop/dup/delay on first transmissions + seeded random loss/dup/delay; liveness is bounded "
+            "(heal + 3 s quiescence).")
+
+
+def sim_text(what):
+    return ("Rtps.tla is the explicit model of the writer/reader protocol envelope checked exhaustively by TLC for small constants; "
+            "Trace_Rtps.tla binds it to the code: every scenario is executed by the real participants in a deterministic "
+            "simulation (controlled loss/duplication/reordering/delay and virtual time) and TLC validates the recorded trace "
+            "event by event (sender-justified DATA/GAP/HEARTBEAT, receiver-sound ACKNACK/take, API results, bounded liveness "
+            "after heal). " + what)
+
+
+TECH_SIM = "explicit TLA+ spec; executions of the real code in a deterministic simulation validated by TLC against the trace specification (impl->spec conformance), fault patterns enumerated + seeded"
+
+SIM_CHECKS = [
+    ("C01", "model_checking", sim_text("Decides exactly-once in-order intact delivery and eventual delivery of retained samples."), "5.1, 6 C01"),
+    ("C02", "model_checking", sim_text("Decides the best-effort subsequence/no-duplicate/no-corruption property."), "5.1, 6 C02"),
+    ("C03", "model_checking", sim_text("Decides soundness of wait_for_acknowledgments (success implies delivery) and its completion after heal, reader deletion and silent participant departure."), "5.1, 6 C03"),
+    ("C04", "model_checking", sim_text("Decides durability: history for late TRANSIENT_LOCAL readers (per-instance depth), none for VOLATILE, wait_for_historical_data."), "5.1, 6 C04"),
+    ("C05", "model_checking", sim_text("Decides fragment numbering/length/reassembly for fragment sizes 8..65000 at payload sizes k*f-4, k*f, k*f+4 under fragment-level faults."), "5.1, 6 C05"),
+    ("C27", "model_checking", sim_text("Decides that a reliable KEEP_LAST write evicts only acknowledged samples, blocks otherwise and times out within max_blocking_time + one worker period."), "5.1, 6 C27"),
+    ("C29", "model_checking", sim_text("Decides that no DATA/DATA_FRAG of a sample is emitted after source timestamp + lifespan (first transmission, repair, history)."), "5.1, 6 C29"),
+]
+
 CHECKS = [
     ("C18", "model_checking", rc_text("Decides KEEP_LAST replacement/never-reject-for-depth and KEEP_ALL retention."), "5.2, 6 C18"),
     ("C19", "model_checking", rc_text("Decides reader-side resource limits and rejection reasons."), "5.2, 6 C19"),
@@ -46,7 +74,7 @@ def main():
     props = [json.loads(l)["id"] for l in open(os.path.join(VERIF, "properties.jsonl"))]
     checks = []
     claimed = set()
-    for pid, level, text, ref in CHECKS:
+    for (pid, level, text, ref), note, tech in [(c, SIM_NOTE, TECH_SIM) for c in SIM_CHECKS] + [(c, RC_NOTE, TECH) for c in CHECKS]:
         claimed.add(pid)
         checks.append({
             "property_id": pid,
@@ -56,8 +84,8 @@ def main():
             "replay_cmd_template": f"./check {pid} --replay {{path}}",
             "engine": "tlc+vh",
             "level_claimed": {"category": level, "text": text, "design_ref": ref},
-            "level_note": RC_NOTE,
-            "technique": TECH,
+            "level_note": note,
+            "technique": tech,
         })
     na = []
     for p in props:
